@@ -1111,6 +1111,9 @@ THEOREMS += [
     "Ymq.C15.stage2_difference_vanishes",
     "Ymq.C15.stage2_hit_product_zero",
     "Ymq.C15.giant_range_sharp",
+    "Ymq.C15.curve_ops_closed",
+    "Ymq.C15.ecm_curve_no_panic",
+    "Ymq.C15.ecm_curve_b_no_panic",
 ]
 MODELLED += [
     "ecm::ecm_curve end to end (Ymq/Model/EcmCurve.lean, every panic site a `none`): stage 1 (chain multiplication by every 64-bit "
@@ -1143,3 +1146,21 @@ def klass(case, ans):
     if case.op in _ec.OPS:
         return _ec.klass(case, ans)
     return _klass0(case, ans)
+
+UNMODELLED = [
+    "ZmodN / M128 Montgomery arithmetic is taken to be arithmetic in Z/n (C07), ZmodN::inv / gcd at their specification (C09); "
+    "the rayon branch of ecm() (order of the seeds under a thread pool); inside ecm_curve: gcd_factors / check_gcd_factor is the "
+    "model of C16 (ExpModn.checkGcdFactor, with the Miller-Rabin model of C06 as `pseudoprime`), Poly::roots_eval enters at its "
+    "specification (C10), the timing / verbosity output is not modelled; the theorems about the tables read the point operations in "
+    "a group (total group law): the degenerate steps of the dedicated extended addition (listed finding) are followed by the model "
+    "and compared (K) but are outside the group-level statements",
+]
+CLAIM += (" One curve run end to end (ecm_curve): in every commutative group in which the formulas are the group law, stage 1 hands "
+          "[prod of all SmoothBase blocks]G to stage 2 (or has returned at a gcd check), the baby table holds [b]Q for exactly the "
+          "b < d1/2 coprime to d1 and the giant table [i d1]Q for exactly i = 1..d2 - the index sets C16's ecm_cover quantifies over "
+          "(stage2_index_sets), so every prime l in (d1/2, d2 d1 + d1/2 - 1] not dividing d1 with [l]Q = O has its two table "
+          "entries (stage2_tables_cover); if two entries have the same affine y the normalised coordinates agree and the accumulated "
+          "product is 0 from that row on (stage2_hit_product_zero); over every commutative ring the run never panics for a generator "
+          "on the curve, blocks of SmoothBase::new(b1 <= 2^24) and any row of the table (ecm_curve_b_no_panic; check_gcd_factor and "
+          "roots_eval assumed to return). Tied to the code by K on the real ecm_curve (returned pair) for curves with constructed "
+          "orders at every boundary index of the grid, on both paths (direct products, roots_eval), and on the intermediate tables.")
